@@ -8,7 +8,7 @@ WT=/tmp/seedwt/$TAG-$P
 mkdir -p /tmp/seedwt
 [ -d $WT ] || git -C /repo worktree add --detach $WT HEAD >/dev/null 2>&1
 git -C $WT reset -q --hard 2>/dev/null; git -C $WT checkout -q --detach $(git -C /repo rev-parse HEAD); git -C $WT checkout -q -- . ; git -C $WT clean -fdq
-git -C $WT apply $PATCH 2>/dev/null || git -C $WT apply --3way $PATCH >/dev/null 2>&1 || { echo "PATCH DOES NOT APPLY"; git -C $WT reset -q --hard; echo "try_seed rc=3"; exit 3; }
+git -C $WT apply $PATCH 2>/dev/null || { git -C $WT apply --3way $PATCH >/dev/null 2>&1 && echo "APPLIED-3WAY (the patch was made for an older goom commit; a three-way merge may change what it does)"; } || { echo "PATCH DOES NOT APPLY"; git -C $WT reset -q --hard; echo "try_seed rc=3"; exit 3; }
 git -C $WT reset -q 2>/dev/null
 cd $V
 EV=evidence/$P.json; cp $EV /tmp/seedwt/$TAG-$P.evidence.bak 2>/dev/null
